@@ -2,6 +2,8 @@
 // (-Wl,--wrap=ascon_trng_generate,--wrap=ascon_trng_generate_64,--wrap=ascon_trng_generate_32).
 // The wrappers serve tapes set by the plan and log what they hand out.
 #include "drv.h"
+#include <errno.h>
+#include <sys/types.h>
 #include <valgrind/memcheck.h>
 extern bool g_taint_tape; bool g_taint_src = false;
 extern "C" {
@@ -27,6 +29,10 @@ long long tape_src_calls() { return g_src_calls; }
 long long tape_mask_calls() { long long r = g_mask_calls; g_mask_calls = 0; return r; }
 void tape_reset_counters() { g_src_calls = 0; g_mask_calls = 0; g_used.clear(); g_src_log.clear(); }
 std::string src_log_json() { std::string r = "[" + g_src_log + "]"; g_src_log.clear(); return r; }
+#ifdef DRV_SYSRNG
+static thread_local std::string g_sys_log_fwd;
+#endif
+void sys_draws_flush();
 std::string tape_used_json() {
     std::ostringstream os; os << "[";
     for (size_t i = 0; i < g_used.size(); ++i) {
@@ -55,6 +61,47 @@ static uint64_t next_mask() {
 extern "C" {
 uint64_t __wrap_ascon_trng_generate_64(void *state) { (void)state; uint64_t v = next_mask(); if (g_taint_tape) (void)VALGRIND_MAKE_MEM_UNDEFINED(&v, sizeof v); return v; }
 uint32_t __wrap_ascon_trng_generate_32(void *state) { (void)state; uint32_t v = (uint32_t)next_mask(); if (g_taint_tape) (void)VALGRIND_MAKE_MEM_UNDEFINED(&v, sizeof v); return v; }
+#ifdef DRV_SYSRNG
+// flavour sysrng: the library's own ascon_trng_generate (src/random/ascon-trng-dev-random.c) runs; the tape is served
+// one level below, by getrandom().  Each draw is logged with what the system call was scripted to do.
+static thread_local int g_sys_ok = -1; static thread_local bytes_t g_sys_bytes; static thread_local int g_sys_calls = 0;
+static thread_local bool g_eintr_pending = false;
+static thread_local std::string g_sys_log;
+ssize_t __wrap_getrandom(void *buf, size_t len, unsigned flags) {
+    (void)flags; ++g_sys_calls;
+    int ok = 0; bytes_t b;
+    if (!g_src_active) { ok = 1; for (size_t i = 0; i < len; ++i) b.push_back((unsigned char)(0x11 * (i + 1) + g_src_calls)); }
+    else if (g_src_pos < g_src.size()) {
+        ok = g_src[g_src_pos].first; b = g_src[g_src_pos].second;
+        if (ok == 2 && !g_eintr_pending) { g_eintr_pending = true; errno = EINTR; return -1; }      // interrupted once, then served
+        g_eintr_pending = false; ++g_src_pos; if (ok == 2) ok = 1;
+    }
+    g_sys_ok = ok; g_sys_bytes = b; g_sys_bytes.resize(len, 0);
+    if (!ok) { errno = ENOSYS; return -1; }
+    memcpy(buf, &g_sys_bytes[0], len);
+    return (ssize_t)len;
+}
+int __wrap_ascon_trng_generate(unsigned char *out, size_t outlen) {
+    ++g_src_calls; g_sys_ok = -1; g_sys_calls = 0;
+    int ok = __real_ascon_trng_generate(out, outlen);
+    std::ostringstream os, sy;
+    if (!g_src_log.empty()) os << ",";
+    os << "{\"ok\":" << (ok ? 1 : 0) << ",\"n\":" << outlen << ",\"bytes\":[";
+    for (size_t i = 0; i < outlen; ++i) { if (i) os << ","; os << (unsigned)out[i]; }
+    os << "]}";
+    g_src_log += os.str();
+    if (!g_sys_log.empty()) sy << ",";
+    sy << "{\"ok\":" << (ok ? 1 : 0) << ",\"bytes\":[";
+    for (size_t i = 0; i < outlen; ++i) { if (i) sy << ","; sy << (unsigned)out[i]; }
+    sy << "],\"sysok\":" << g_sys_ok << ",\"syscalls\":" << g_sys_calls << ",\"sysbytes\":[";
+    for (size_t i = 0; i < g_sys_bytes.size() && g_sys_ok >= 0; ++i) { if (i) sy << ","; sy << (unsigned)g_sys_bytes[i]; }
+    sy << "]}";
+    g_sys_log += sy.str();
+    if (g_taint_src) (void)VALGRIND_MAKE_MEM_UNDEFINED(out, outlen);
+    return ok;
+}
+#define __wrap_ascon_trng_generate __unused_wrap_ascon_trng_generate
+#endif
 int __wrap_ascon_trng_generate(unsigned char *out, size_t outlen) {
     ++g_src_calls;
     if (!g_src_active) {            // no tape installed: deterministic filler, reported healthy
@@ -63,7 +110,7 @@ int __wrap_ascon_trng_generate(unsigned char *out, size_t outlen) {
         return 1;
     }
     int ok = 0; bytes_t b;
-    if (g_src_pos < g_src.size()) { ok = g_src[g_src_pos].first; b = g_src[g_src_pos].second; ++g_src_pos; }
+    if (g_src_pos < g_src.size()) { ok = g_src[g_src_pos].first ? 1 : 0; b = g_src[g_src_pos].second; ++g_src_pos; }     // 2 (interrupted once) is healthy at this level
     for (size_t i = 0; i < outlen; ++i) out[i] = i < b.size() ? b[i] : 0;
     std::ostringstream os;
     if (!g_src_log.empty()) os << ",";
@@ -75,3 +122,9 @@ int __wrap_ascon_trng_generate(unsigned char *out, size_t outlen) {
     return ok;
 }
 }
+
+#ifdef DRV_SYSRNG
+void sys_draws_flush() { if (g_sys_log.empty()) return; Ev ev("sys.draws"); ev.raw("draws", "[" + g_sys_log + "]"); g_sys_log.clear(); ev.emit(); }
+#else
+void sys_draws_flush() {}
+#endif
